@@ -1021,7 +1021,7 @@ def cli_params(rng, i, tier):
     workers = [None, 1, 2, 4, 8][(i // 4) % 5] if tier == 'quick' else rng.choice([None, None, 1, 2, 4, 8])
     # generation costs seconds per program: small sessions in the quick tier, the whole
     # range (skewed towards short sessions) in the thorough one
-    n = rng.randint(3, 12) if tier == 'quick' else int(3 + 37.99 * rng.random() ** 2.2)
+    n = rng.randint(3, 10) if tier == 'quick' else int(3 + 37.99 * rng.random() ** 2.2)
     return {'lang': lang, 'iterations': n, 'batch': rng.randint(1, 12), 'workers': workers,
             'transformations': rng.randint(0, 2), 'only_cp': rng.random() < 0.25,
             'keep_all': rng.random() < 0.3,
@@ -1193,7 +1193,7 @@ def main(prop, tier):
         agg.inconclusive.append('sessions would not import the tree under test: %s' % src)
     cells = []
     parts_on = set((os.environ.get('VERIF_C15_PARTS') or 'table,session,cli').split(','))
-    n_cli = (12 if quick else 160) if 'cli' in parts_on else 0
+    n_cli = (12 if quick else 48) if 'cli' in parts_on else 0
     for i in range(n_cli):
         rng = random.Random(common.h32(seed, 'cli', i))
         cells.append(('cell_cli', {'params': cli_params(rng, i, tier), 'runid': runid}))
@@ -1203,13 +1203,13 @@ def main(prop, tier):
         for part in range(parts if 'table' in parts_on else 0):
             cells.append(('cell_table', {'lang': lang, 'mode': 'exhaustive', 'sizes': [1, 2, 3],
                                          'part': part, 'parts': parts, 'runid': runid}))
-        for j in range((1 if quick else 6) if 'table' in parts_on else 0):
+        for j in range((1 if quick else 4) if 'table' in parts_on else 0):
             cells.append(('cell_table', {'lang': lang, 'mode': 'random', 'count': 150 if quick else 400,
                                          'seed': common.h32(seed, 'rnd', lang, j), 'runid': runid}))
             cells.append(('cell_table', {'lang': lang, 'mode': 'sequence', 'count': 120 if quick else 300,
                                          'seed': common.h32(seed, 'seq', lang, j), 'runid': runid}))
-        for j in range((2 if quick else 16) if 'session' in parts_on else 0):
-            cells.append(('cell_session', {'lang': lang, 'count': 16 if quick else 25,
+        for j in range((2 if quick else 8) if 'session' in parts_on else 0):
+            cells.append(('cell_session', {'lang': lang, 'count': 12 if quick else 16,
                                            'seed': common.h32(seed, 'ses', lang, j), 'runid': runid}))
     results = []
     by_fn = {}
@@ -1242,17 +1242,17 @@ def main(prop, tier):
     }
     if 'table' in parts_on:
         agg.floor('table_batches', 650)
-        agg.floor('random_batches', 60 if quick else 900)
+        agg.floor('random_batches', 60 if quick else 600)
         agg.floor('update_stats_calls', 100 if quick else 1500)
     if 'session' in parts_on:
-        agg.floor('inproc_sessions_seq', 6 if quick else 80)
-        agg.floor('inproc_sessions_par', 6 if quick else 80)
-        agg.floor('session_batches', 40 if quick else 600)
-        agg.floor('sessions_judged', 16 if quick else 200)
+        agg.floor('inproc_sessions_seq', 6 if quick else 40)
+        agg.floor('inproc_sessions_par', 6 if quick else 40)
+        agg.floor('session_batches', 40 if quick else 400)
+        agg.floor('sessions_judged', 16 if quick else 120)
     if 'cli' in parts_on:
-        agg.floor('cli_sessions', 4 if quick else 60)
-        agg.floor('cli_sessions_par', 2 if quick else 20)
-        agg.floor('cli_programs', 15 if quick else 300)
+        agg.floor('cli_sessions', 4 if quick else 24)
+        agg.floor('cli_sessions_par', 2 if quick else 8)
+        agg.floor('cli_programs', 15 if quick else 120)
     if parts_on != {'table', 'session', 'cli'}:
         agg.inconclusive.append('development run restricted to parts %s' % sorted(parts_on))
     return agg.finish(
